@@ -179,7 +179,7 @@ class Ctx:
                 os.makedirs(out, exist_ok=True)
                 for fn in files:
                     m = re.match(r'^(c\d\d|x\d\d|e2e)_.*\.go$', fn)
-                    if m and m.group(1) != mine and fn not in also and root == src:
+                    if m and m.group(1) != mine and fn not in also and root == src and '/verifh/' not in '/' + rel + '/':
                         continue
                     shutil.copy(os.path.join(root, fn), os.path.join(out, fn))
 
